@@ -232,10 +232,28 @@ def choose_construct(rng):
     return ["mkM", str(k)] + [t for r in rs for t in r]
 
 
+def _ba(rng):
+    return ["ba" + str(rng.randrange(cu.N_BAD_ARG))]
+
+
+def _bv(rng):
+    return ["bv" + str(rng.randrange(cu.N_BAD_VAL))]
+
+
+def _randomise_bad(rng, toks):
+    return [("ba" + str(rng.randrange(cu.N_BAD_ARG))) if t == "ba" else ("bv" + str(rng.randrange(cu.N_BAD_VAL))) if t == "bv" else t for t in toks]
+
+
 def choose_op(rng: Rng, d):
+    return _randomise_bad(rng, _choose_op(rng, d))
+
+
+def _choose_op(rng: Rng, d):
     k = d["kind"]
     if k == "E" or rng.random() < 0.06:
         return choose_construct(rng)
+    if k in ("D", "I") and rng.random() < 0.07:
+        return ["bi", rng.choice(["a", "a", "v"]) + str(rng.randrange(cu.N_BAD_ITEM))]
     if k == "D":
         pts, g, rows = d["pts"], d["g"], d["rows"]
         n = len(rows)
@@ -450,19 +468,21 @@ def _wrong_class(obj, toks):
     """Is the argument of this setter / constructor of a class for which a TypeError is documented?"""
     A, V, FD = cu._fd()
     op = toks[0]
+    if op == "bi":
+        return isinstance(obj, FD.GridFunctionalData) and not (toks[1][0] == "v" and isinstance(obj, FD.DenseFunctionalData))
     if op in ("mkD", "mkI"):
         want = "d" if op == "mkD" else "i"
         rest = toks[1:]
         a = rest[0]
         # the value token follows the argvals description
-        vtok = next((t for t in rest[1:] if t in ("dv", "iv", "ov", "bv")), None)
-        return a in ("oa", "ba") or a[0] != want or vtok in ("ov", "bv") or (vtok is not None and vtok[0] != want)
+        vtok = next((t for t in rest[1:] if t in ("dv", "iv", "ov") or t.startswith("bv")), None)
+        return a == "oa" or a.startswith("ba") or a[0] != want or vtok == "ov" or (vtok is not None and (vtok.startswith("bv") or vtok[0] != want))
     if op in ("setA", "setV", "setS"):
         if not isinstance(obj, FD.GridFunctionalData):
             return False
         want = "d" if isinstance(obj, FD.DenseFunctionalData) else "i"
         t = toks[1]
-        if t in ("oa", "ba", "ov", "bv"):
+        if t in ("oa", "ov") or t.startswith("ba") or t.startswith("bv"):
             return True
         return t[0] != want and (op != "setS" or _guard() == 1)
     return False
@@ -493,6 +513,13 @@ def apply_op(obj, toks, shadow):
                 return obj, "na", shadow
             val = (cu.parse_val(tk) if op == "setV" else cu.parse_arg(tk))()
             setattr(obj, {"setA": "argvals", "setV": "values", "setS": "argvals_stand"}[op], val)
+            return obj, "ok", shadow
+        if op == "bi":
+            if not is_grid:
+                return obj, "na", shadow
+            t = tk.next()
+            if not cu.bad_item_assign(obj, t[0], int(t[1:] or 0)):
+                return obj, "na", shadow
             return obj, "ok", shadow
         if op in ("app", "ext", "ins", "rem", "pop", "popd", "clr", "rev"):
             if not is_multi:
@@ -763,6 +790,23 @@ def _exhaustive(depth):
                 yield dict(kind="seq", start=kind, ops=[START[kind]] + [al[i] for i in seq], ex=L)
 
 
+def _bad_variant_cases():
+    """Every way of offering a wrong-class key / value to the typed dictionaries — at construction, through
+    the setters and by item assignment on an existing object — on every kind of start object."""
+    good_iv = v_irreg([(0, [3], 0)])
+    good_ia = a_irreg([(0, [3], 0)])
+    for kind in ("dense", "dense2", "irreg"):
+        for k in range(cu.N_BAD_ARG):
+            yield dict(kind="seq", start="bad:" + kind, ops=[START[kind], ["setA", f"ba{k}"], ["setS", f"ba{k}"],
+                                                              ["mkI", f"ba{k}"] + good_iv, ["mkD", f"ba{k}"] + v_dense([0], [3])])
+        for k in range(cu.N_BAD_VAL):
+            yield dict(kind="seq", start="bad:" + kind, ops=[START[kind], ["setV", f"bv{k}"], ["mkI"] + good_ia + [f"bv{k}"]])
+        for k in range(cu.N_BAD_ITEM):
+            yield dict(kind="seq", start="bad:" + kind, ops=[START[kind], ["bi", f"a{k}"], ["bi", f"v{k}"], ["gs", "N", "N", "N"]])
+    for k in range(cu.N_BAD_ARG):
+        yield dict(kind="seq", start="bad:multi", ops=[START["multi"], ["app", "I", f"ba{k}"] + good_iv, ["ext", "1", "D", f"ba{k}"] + v_dense([0, 1], [3])])
+
+
 def fnv(s: str) -> int:
     h = 14695981039346656037
     for b in s.encode():
@@ -809,10 +853,13 @@ def random_history(rng: Rng, length):
     obj, shadow = None, None
     ops = []
     start = rng.choice(list(START))
-    ops.append(START[start] if rng.random() < 0.7 else choose_construct(rng))
+    ops.append(START[start] if rng.random() < 0.7 else _randomise_bad(rng, choose_construct(rng)))
     obj, out, shadow = apply_op(None, ops[0], None)
     for _ in range(length - 1):
-        d = parse_state(cu.show_state(obj))
+        try:
+            d = parse_state(cu.show_state(obj))
+        except Exception:  # noqa: BLE001  (the object under test is corrupt: stop here, the replay judges it)
+            break
         toks = choose_op(rng, d)
         ops.append(toks)
         obj2, out, shadow2 = apply_op(obj, toks, shadow)
@@ -825,6 +872,7 @@ def gen_cases(rng: Rng, tier):
     common.use_repo()
     n = dict(quick=260, thorough=2500)[tier]
     cases = [random_history(rng, rng.choice([5, 8, 12, 20, 40])) for _ in range(n)]
+    cases += list(_bad_variant_cases())
     if tier == "quick":
         cases += list(_exhaustive(2))
     else:
@@ -920,7 +968,7 @@ _RANGE_OPS = {"gi", "ga", "pop", "popd"}
 _ENTRY = {"setA": "argvals.setter", "setV": "values.setter", "setS": "argvals_stand.setter", "mkD": "DenseFunctionalData",
           "mkI": "IrregularFunctionalData", "mkM": "MultivariateFunctionalData", "app": "append", "ext": "extend",
           "ins": "insert", "rem": "remove", "pop": "pop", "popd": "pop", "clr": "clear", "rev": "reverse",
-          "gi": "__getitem__", "gs": "__getitem__", "ga": "__getitem__", "cat": "concatenate"}
+          "gi": "__getitem__", "gs": "__getitem__", "ga": "__getitem__", "cat": "concatenate", "bi": "typed_dict.__setitem__"}
 
 
 def _judge(ops, steps):
